@@ -174,6 +174,33 @@ pub fn mutations(base: &[u8], fields: &[Field]) -> Vec<(String, Vec<u8>)> {
       }
     }
   }
+  // the inverse: every nested chunk shortened from its end (1, 23, 24 bytes, to 1 byte, to nothing) with all
+  // enclosing lengths ADJUSTED, so that the framing stays consistent and only the content is too short
+  for f in fields {
+    if f.kind != Kind::Len {
+      continue;
+    }
+    let clen = rd_u32(base, f.off);
+    let (start, end) = (f.off + 4, f.off + 4 + clen);
+    if end > base.len() {
+      continue;
+    }
+    let mut cuts: Vec<usize> = vec![1, 23, 24, 25, clen.saturating_sub(1), clen];
+    cuts.retain(|&c| c >= 1 && c <= clen);
+    cuts.sort();
+    cuts.dedup();
+    for cut in cuts {
+      let mut b = base.to_vec();
+      b.drain(end - cut..end);
+      // this chunk's own length and every enclosing chunk's length
+      for &p in f.parents.iter().chain(std::iter::once(&f.off)) {
+        let v = rd_u32(&b, p).saturating_sub(cut);
+        b[p..p + 4].copy_from_slice(&(v as u32).to_le_bytes());
+      }
+      let _ = start;
+      out.push((format!("{}: last {} byte(s) of the chunk removed (lengths adjusted, {} left)", f.name, cut, clen - cut), b));
+    }
+  }
   out
 }
 
